@@ -566,6 +566,16 @@ Example shared_buffer_refuted :
   ok_pool shared_buffer_progs (pobserve [0; 1] s) (ps_pool s) = false.
 Proof. vm_compute. repeat split; reflexivity. Qed.
 
+(* before the fix in /repo: a packet of a track the viewer did not set up — nothing is composed, the
+   empty buffer is sent all the same: a WebSocket message that is neither a response nor a frame.
+   Disciplined, so this is about the program text: the goroutine must not Send what it did not compose
+   (the repaired Consume returns before the Send; its program for such a packet is Get; Put). *)
+Example empty_message_refuted :
+  let s := prun [(0,0);(0,0);(0,0)] (pinit [[IGet 0 true; ISend 0 1; IPut 0]]) in
+  pfinished 1 s = true /\ map snd (on_conn 1 (ps_out s)) = [[]] /\
+  ok_pool [[IGet 0 true; IPut 0]] (pobserve [1] s) (ps_pool s) = false.
+Proof. vm_compute. repeat split; reflexivity. Qed.
+
 (* non-vacuity: a disciplined program with a deferred Put per request, as Session.process has it *)
 Definition good_progs : list (list instr) :=
   [ [IGet 0 true; IWrite 0 resp_txt; ISend 0 0; IPut 0];
